@@ -191,6 +191,9 @@ class FieldData:
     if value is None:
       if fieldname in self._data:
         self._data.pop(fieldname)
+      if fieldname in self._datatype:
+        # as in delete(): the datatype of a removed tag is forgotten
+        self._datatype.pop(fieldname)
     else:
       if self.vlevel >= 3:
         self._field_or_default_datatype(fieldname, value)
